@@ -618,6 +618,35 @@ def check_fuses_edge(ck, drv, se, spec):
               None if rom is None else rom["cmds"], [" ".join(t), " ".join(tail)])
 
 
+SPEC_OPS = {"rom", "parse", "romkdf"}
+
+
+class Router:
+    """Two processes of the same driver: the Spec-only ops (ROM loader = the property's oracle) never share a process with the ops that
+    evaluate the model of the code.  A regenerated constant can make the MODEL arbitrarily slow or huge (seeded change C05d: an unreadable
+    alignment made every load-type command a megabyte long and the single driver spun for the whole run): the model process then misses its
+    short per-answer deadline, is killed by vcore's watchdog and every later model answer is a broken correspondence (`E:driver-died`) --
+    while the oracle keeps running and still produces the concrete replay."""
+
+    def __init__(self, model, spec):
+        self.model, self.spec = model, spec
+
+    def ask(self, line):
+        return (self.spec if line.split(" ", 1)[0] in SPEC_OPS else self.model).ask(line)
+
+
+def two_drivers(ck):
+    model = ck.driver()
+    if model is None:
+        return None
+    spec = ck.driver()
+    if spec is None:
+        return None
+    model.answer_timeout = min(model.answer_timeout, float(os.environ.get("VERIF_C05_MODEL_TIMEOUT", "30")))   # model answers take milliseconds
+    spec.answer_timeout = min(spec.answer_timeout, 120.0)
+    return Router(model, spec)
+
+
 # ------------------------------------------------------------------------------------------------ run
 def run(ck, only=None):
     import logging
@@ -625,9 +654,9 @@ def run(ck, only=None):
     from spsdk.sbfile.sb31 import functions as F
 
     # driver ops that evaluate Spec-only definitions (Spec/Sb31Rom.lean + Crypto/*: no import of Model/ or Generated/)
-    ck.spec_ops = {"rom", "parse", "romkdf"}
+    ck.spec_ops = set(SPEC_OPS)
     ck.lean_obligations(generated=["Sb31Consts"])
-    drv = ck.driver()
+    drv = two_drivers(ck)
     rng = ck.rng
     ck.assume("the ROM loader of the check (Model/Sb31.lean, namespace Rom) is written from SPSDK's format description; no NXP ROM is available to compare with",
               "ECDSA P-256/P-384, SHA-256/384, AES and CMAC of `cryptography`/OpenSSL behave as the standards say (the Lean reference implementations are validated against them by C09)",
